@@ -356,6 +356,21 @@ StepRegionOpaque(P, orc, m, op) ==
 (* run-time intrinsic: the id of the executing core *)
 StepCoreIdx(P, orc, m, op) == Adv(Def(P, m, op.r, <<orc.core>>))
 
+(* named kernels (C18): their scalar meaning; mac / qmac accumulate into the output argument (last block argument) *)
+ClampTo(x, lo, hi) == IF x < lo THEN lo ELSE IF x > hi THEN hi ELSE x
+KernelSem(op, v, out, w) ==
+  CASE op.sv[1] = "kernel.mul" -> Wrap(v[1] * v[2], w)
+    [] op.sv[1] = "kernel.add" -> Wrap(v[1] + v[2], w)
+    [] op.sv[1] = "kernel.mac" -> Wrap(out + v[1] * v[2], w)
+    [] op.sv[1] = "kernel.qmac" -> Wrap(out + (v[1] - v[3]) * (v[2] - v[4]), w)
+    [] op.sv[1] = "kernel.rescale" ->
+         (* single channel, truncating arithmetic shift, no double rounding *)
+         Wrap(ClampTo((((v[1] - op.iv[1]) * op.iv[3]) \div (2^op.iv[4])) + op.iv[2], op.iv[5], op.iv[6]), w)
+    [] OTHER -> 0
+StepKernel(P, m, op) ==
+  IF op.sv[1] \notin {"kernel.mul", "kernel.add", "kernel.mac", "kernel.qmac", "kernel.rescale"} THEN Fault(m, "Unsupported:" \o op.sv[1])
+  ELSE Adv(Def(P, m, op.r, <<KernelSem(op, Vals(m, op.a), m.env[P.args[Len(P.args)]], op.w)>>))
+
 MStepRaw(P, orc, m) ==
   LET i == m.pc  op == P.ops[i] IN
   IF i > Len(P.ops) THEN [m EXCEPT !.status = "done"]
@@ -370,6 +385,8 @@ MStepRaw(P, orc, m) ==
          [] op.k = "if" -> StepIf(P, m, i, op)
          [] op.k = "while" -> StepWhile(P, m, i, op)
          [] op.k = "cond" -> StepCond(P, m, i, op)
+         [] op.k = "kernel" -> StepKernel(P, m, op)
+         [] op.k = "lyield" -> Log([m EXCEPT !.status = "done"], [k |-> "ret", i |-> i, vals |-> Vals(m, op.a)])
          [] op.k = "ret" -> Log([m EXCEPT !.status = "done"], [k |-> "ret", i |-> i, vals |-> Vals(m, op.a)])
          [] op.k = "setup" -> StepSetup(P, m, op)
          [] op.k = "launch" -> StepLaunch(P, m, op)
